@@ -15,6 +15,7 @@ from dateparser.parser import _check_strict_parsing, _parse_absolute, _parse_nos
 from dateparser.timezone_parser import pop_tz_offset_from_string
 from dateparser.utils import (
     _get_missing_parts,
+    _has_week_and_weekday,
     apply_timezone_from_settings,
     get_timezone_from_tz_string,
     set_correct_day_from_settings,
@@ -214,6 +215,8 @@ def parse_with_formats(date_string, date_formats, settings):
                 m in date_format for m in ["%m", "%b", "%B", "%j"]
             )
             missing_day = not any(d in date_format for d in ["%d", "%j"])
+            if _has_week_and_weekday(date_format):
+                missing_month = missing_day = False
             if missing_month and missing_day:
                 period = "year"
                 date_obj = set_correct_month_from_settings(date_obj, settings)
